@@ -159,8 +159,8 @@ class Run:
             else:
                 new.setdefault((v.component, v.clause, json.dumps(v.config, sort_keys=True)), []).append(v)
         for fid, (f, n, v) in sorted(known.items()):
-            print("KNOWN-FINDING: property=%s %s [%s] %s (%d case(s) this run; e.g. %s)" % (
-                self.prop, f["component"] if isinstance(f["component"], str) else "/".join(f["component"]), fid, f["description"], n,
+            print("%s=%s %s [%s] %s (%d case(s) this run; e.g. %s)" % (
+                "EXTRA-KNOWN-FINDING: check" if self.prop.startswith("X") else "KNOWN-FINDING: property", self.prop, f["component"] if isinstance(f["component"], str) else "/".join(f["component"]), fid, f["description"], n,
                 json.dumps(v.witness, sort_keys=True)[:160]))
         listed = [f for f in findings if f["property"] == self.prop and f.get("status") == "known"]
         for f in listed:
